@@ -1866,8 +1866,19 @@ double Analyser::AnalyserImpl::powerValue(const AnalyserEquationAstPtr &ast,
 
         return value;
     }
-    case AnalyserEquationAst::Type::CN:
-        return std::stod(ast->value());
+    case AnalyserEquationAst::Type::CN: {
+        double value;
+
+        if (!convertToDouble(ast->value(), value)) {
+            // The number cannot be represented (e.g., 1e999).
+
+            powerData.mExponentValueAvailable = false;
+
+            return NAN;
+        }
+
+        return value;
+    }
 
         // Qualifier elements.
 
